@@ -179,7 +179,8 @@ func (def *actionHandler) newInput(hasAnyInput bool) (reflect.Value, error) {
 		kind = t0.Elem().Kind()
 	}
 	if isPtr && !hasAnyInput {
-		return empty, nil
+		// no input given: the method still takes its parameter, as a nil pointer
+		return reflect.Zero(t0), nil
 	}
 	switch kind {
 	case reflect.Struct:
